@@ -1,7 +1,7 @@
 SPECIFICATION Spec
 CONSTANTS
   Shapes0 <- MCShapes
-  Acts = {"read", "insert", "remove", "refine", "reverse", "transpose", "flip", "set_ctrlpts", "set_weights", "scale_weights", "translate", "scale", "sample_size", "sample_size_dir"}
+  Acts = {"read", "insert", "remove", "refine", "reverse", "transpose", "flip", "set_ctrlpts", "set_weights", "scale_weights", "translate", "scale", "sample_size", "sample_size_dir", "edit_ctrlpts", "edit_ctrlptsw"}
   MaxDepth = 3
   DepthCurve = 3
   DepthSurf = 3
